@@ -17,14 +17,15 @@ import copy
 
 
 def data1():
-    return [[{'id': i, 'n': i * 1.5, 's': 'v%d' % i, 'k': 'abc'[i % 3]} for i in range(5)],
-            [{'id': i, 'm': 'x%d' % i, 'k': 'ab'[i % 2]} for i in range(3)]]
+    return [[{'id': v, 'n': i * 1.5, 's': 'v%d' % i, 'k': 'abc'[i % 3]} for i, v in enumerate([3, 20, -1, 100, 9])],
+            [{'id': v, 'm': 'x%d' % i, 'k': 'ab'[i % 2]} for i, v in enumerate([5, 40, 6])]]
 
 
 def data2():
-    return [[{'id': 10 + i, 'n': 2.5 * i, 's': 'vw%d' % i, 'k': 'ba'[i % 2], 'extra': i} for i in range(4)],
-            [{'id': i, 'm': 'y', 'k': 'a', 'extra': 1} for i in range(2)],
-            [{'id': 7 - i, 'n': 1.0 + i, 's': 'zv', 'k': 'a'} for i in range(3)]]
+    # (ids that sort differently as numbers and as text; another number of resources, an extra column)
+    return [[{'id': v, 'n': 2.5 * i, 's': 'vw%d' % i, 'k': 'ba'[i % 2], 'extra': i} for i, v in enumerate([10, 9, -3, 100])],
+            [{'id': v, 'm': 'y', 'k': 'a', 'extra': 1} for v in (11, 2)],
+            [{'id': v, 'n': 1.0 + i, 's': 'zv', 'k': 'a'} for i, v in enumerate([7, 60, 5])]]
 
 
 def catalogue():
